@@ -23,3 +23,122 @@ PROPS["C12"] = {
                     "distinctness of subkeys beyond the parameter block: BLAKE2b collision resistance"],
     "partial": "",
 }
+
+_SYM_MODELLED = ["XSalsa20 / ChaCha20 / HChaCha20 are the external crates salsa20 / chacha20 (and hand-written cores): modelled by Coq specifications (Spec/Salsa20.v, Spec/ChaCha20.v) and tied by correspondence only",
+                 "Poly1305: hand-written model of poly1305_soft.rs (Impl/Poly1305.v) tied by correspondence (incl. adversarial carry operands)",
+                 "subtle::ct_eq modelled as byte-string equality; zeroize not modelled"]
+
+PROPS["C07"] = {
+    "theorems": [
+        {"name": "C07_blake2b_compress", "status": "proved", "statement": "Rust compress (closures g/round, 12-row SIGMA) = RFC 7693 F for every h, t < 2^128, flag, 128-byte block"},
+        {"name": "C07_generichash", "status": "proved", "statement": "crypto_generichash = RFC 7693 BLAKE2b for every digest length 16..64, key none or 16..64 bytes, every message"},
+        {"name": "C07_generichash_rejects", "status": "proved", "statement": "digest / key lengths outside the range -> Err"},
+        {"name": "C07_increment", "status": "proved", "statement": "LE(increment bs) = (LE bs + 1) mod 256^|bs| for every byte string"},
+        {"name": "C07_onetimeauth_verify_iff", "status": "proved", "statement": "verify = Ok iff mac = onetimeauth key msg"},
+        {"name": "C07_auth_verify_iff", "status": "proved", "statement": "verify = Ok iff mac = auth key msg"},
+        {"name": "C07_gen_tables", "status": "proved", "statement": "SIGMA / IV / size constants regenerated from blake2b_soft.rs equal the model's"},
+        {"name": "C07_kat_blake2b", "status": "proved", "statement": "non-vacuity: RFC 7693 'abc' through the implementation model"},
+    ],
+    "gen_obligations": ["GenTie.blake2b_tables_tie", "GenTie.blake2b_params_tie"],
+    "builds": ["stable"],
+    "rule": "every input length 0..=1100 for onetimeauth / auth / sha512 / shorthash / generichash on dryoc vs libsodium (search); the extracted model sees every length 0..=260 and a stride above (correspondence); "
+            "digest x key length grid incl. rejected pairs; adversarial Poly1305 operands (r=1,2,max; unreduced accumulator p-8..p+3, +2^128, tails; s=0, 2^128-1); verify accept + every single-bit MAC flip; "
+            "cores on PRNG/extreme inputs; increment on 0xff-runs. non-trivial = reaches the primitive (valid lengths), distinct by (op,args)",
+    "modelled": _SYM_MODELLED + ["SHA-512 / HMAC: implementation is the external sha2 crate; Spec/Sha512.v is an executable FIPS 180-4 reference tied by correspondence",
+                                  "SipHash, HSalsa20, HChaCha20: model = specification (the Rust kernels are compared by correspondence; see DESIGN 'Changes')"],
+    "assumptions": ["libsodium as second reference", "Poly1305 limb arithmetic = RFC 8439 is checked by correspondence incl. carry corner operands (proof pending, see DESIGN 'Changes')"],
+    "partial": "Poly1305 / SipHash / cores: Impl = Spec is by correspondence, not yet by theorem",
+}
+
+PROPS["C08"] = {
+    "theorems": [
+        {"name": "C08_blake2b_update_chunks", "status": "proved", "statement": "forall compression function, state with |buf| <= 128, chunk list: fold update = update (concat)"},
+        {"name": "C08_generichash", "status": "proved", "statement": "init/update*/final over any chunk list = single update of the concatenation"},
+        {"name": "C08_external_hasher", "status": "proved", "statement": "any hasher with update (update s a) b = update s (a++b) and update s [] = s: fold = one update (sha2-backed interfaces)"},
+        {"name": "C08_example", "status": "proved", "statement": "non-vacuity example by vm_compute"},
+    ],
+    "builds": ["stable"],
+    "rule": "every 2-way split of every length 0..=300 and every 3-way split of every length 0..=140 (thorough 600/260) on dryoc for onetimeauth, generichash (keyed/unkeyed), auth, sha512 (search, exhaustive over that family); "
+            "object-API incremental interfaces; PRNG k-way partitions with empty pieces of 1-8 KiB messages; a 0.5% (thorough 2%) sample of the partitions through the extracted model (correspondence). non-trivial: all; distinct by (op,args)",
+    "modelled": _SYM_MODELLED,
+    "assumptions": ["sha2::Sha512 update law (validated on every split by the search)", "Poly1305 buffering: correspondence (theorem pending)"],
+    "partial": "Poly1305 update_chunks theorem pending; BLAKE2b proved",
+}
+
+PROPS["C01"] = {
+    "theorems": [
+        {"name": "C01_forms_agree", "status": "proved", "statement": "easy = easy_inplace = mac ++ detached for every key, nonce, message length (buffers of the documented size)"},
+        {"name": "C01_roundtrip", "status": "proved", "statement": "open_easy / open_easy_inplace / open_detached_inplace of the box return the message, every key / nonce / length"},
+        {"name": "C01_example", "status": "proved", "statement": "non-vacuity by vm_compute"},
+    ],
+    "builds": ["stable"],
+    "rule": "keys/nonces {0, 0xff, PRNG} x every message length 0..=320 (+1 KiB, 4 KiB; thorough 64 KiB) through every classic secretbox form, box / afternm / sealed forms for seeded key pairs, object API (Vec and stack containers): "
+            "bytes = libsodium's, opens under both libraries both ways (search); secretbox forms through the extracted model with sentinel-filled caller buffers (correspondence). non-trivial: all; distinct by (op,args)",
+    "modelled": _SYM_MODELLED + ["public-key boxes: X25519 is the external curve25519-dalek; box = secretbox(beforenm) is checked on the implementation against libsodium (search); not yet in the model"],
+    "assumptions": ["libsodium as reference for byte compatibility", "DH commutes (Curve25519 group law) for box round trips"],
+    "partial": "secret-key forms proved over the model; public-key and sealed forms by search against libsodium",
+}
+
+PROPS["C02"] = {
+    "theorems": [
+        {"name": "C02_accept_iff_mac", "status": "proved", "statement": "open accepts iff mac = Poly1305(one-time key, ciphertext)"},
+        {"name": "C02_tag_tamper_rejected", "status": "proved", "statement": "any authenticator other than the computed one is rejected"},
+        {"name": "C02_short_box_rejected", "status": "proved", "statement": "boxes shorter than 16 bytes -> Err (both forms)"},
+        {"name": "C02_short_stream_ciphertext_rejected", "status": "proved", "statement": "stream ciphertexts shorter than 17 bytes -> Err, nothing changed"},
+        {"name": "C02_untampered_accepted", "status": "proved", "statement": "the untampered box is accepted"},
+    ],
+    "builds": ["stable"],
+    "rule": "for every message length 0..=40 (thorough 200): every single-bit flip of tag, body, nonce, key, sender public key, recipient secret key, sealed ephemeral key; every truncation; extensions by 1..17 and 64 bytes; "
+            "stream pull: every bit of ciphertext / AD / key / state nonce / header, truncations, extensions, AD extension; all classic forms + object API (search, exhaustive over that family); a sample through the model (correspondence of verdict and buffer). non-trivial: all",
+    "modelled": _SYM_MODELLED,
+    "assumptions": ["rejection of body / nonce / key / header tampering = no Poly1305 collision under the changed one-time key (probability <= 8*ceil(L/16)/2^106 per forgery) and Salsa20/ChaCha20 as PRFs: cryptographic assumption, not provable"],
+    "partial": "structural half proved (accept iff MAC, tag tamper, lengths); body/nonce/key tamper rests on the MAC assumption and is enumerated on the implementation",
+}
+
+PROPS["C17"] = {
+    "theorems": [
+        {"name": "C17_open_detached_inplace", "status": "proved", "statement": "not Ok -> (Err, buffer unchanged)"},
+        {"name": "C17_open_detached", "status": "proved", "statement": "Err -> buffer = zeros |c| ++ untouched tail"},
+        {"name": "C17_open_easy", "status": "proved", "statement": "Err -> buffer unchanged or zero prefix ++ untouched tail"},
+        {"name": "C17_open_easy_inplace", "status": "proved", "statement": "Err -> buffer unchanged"},
+        {"name": "C17_stream_pull", "status": "proved", "statement": "not Ok -> (Err, state, buffer, tag variable) all unchanged"},
+        {"name": "C17_example", "status": "proved", "statement": "non-vacuity by vm_compute"},
+    ],
+    "builds": ["stable"],
+    "rule": "the C02 tamper family; after every Err the caller's message buffer (pre-filled with 0xa5) must be unchanged or zero, the stream tag variable (0xee) unchanged, the stream state unchanged (search); sample through the model comparing the buffer bytes (correspondence)",
+    "modelled": _SYM_MODELLED,
+    "assumptions": [],
+    "partial": "",
+}
+
+PROPS["C03"] = {
+    "theorems": [
+        {"name": "C03_lockstep", "status": "proved", "statement": "from any 32/12-byte state, any message / AD / tag byte: pull(push output) = Ok, message and tag recovered, pull state = push state (incl. rekey on tag or counter wrap)"},
+        {"name": "C03_failed_pull_preserves_state", "status": "proved", "statement": "a pull that does not succeed returns (Err, same state, same buffer, same tag)"},
+        {"name": "C03_counter_increment", "status": "proved", "statement": "counter bytes = little-endian integer + 1 mod 256^n"},
+        {"name": "C03_wrap", "status": "proved", "statement": "non-vacuity: 0xffffffff wraps to 0"},
+    ],
+    "builds": ["stable"],
+    "rule": "700 (thorough 6000) PRNG histories of depth <= 8 (24) over {push(len, adlen, tag byte), explicit rekey, deliver-in-order, deliver-wrong(replay|skip|foreign|wrong-AD|bit-flip|truncated|longer-AD)}, started at counter 1 / mid / 0xfffffffe / 0xffffffff through hook State::verif_from_parts; "
+            "dryoc vs libsodium: ciphertexts, recovered messages/tags, both states after every step (search); the same histories through the extracted model (correspondence); object API push/pull vs classic",
+    "modelled": _SYM_MODELLED,
+    "assumptions": ["out-of-position ciphertexts are rejected because the state (nonce) differs: rests on the MAC assumption of C02"],
+    "partial": "lockstep and failure-preserves-state proved; out-of-position rejection enumerated",
+}
+
+PROPS["C04"] = {
+    "theorems": [
+        {"name": "C04_open_easy_total", "status": "proved", "statement": "with an output buffer of at least |c|-16 bytes, open_easy is Ok or Err for every byte string"},
+        {"name": "C04_open_easy_inplace_total", "status": "proved", "statement": "open_easy_inplace never panics"},
+        {"name": "C04_stream_pull_total", "status": "proved", "statement": "classic pull never panics"},
+        {"name": "C04_stream_obj_pull_total", "status": "proved", "statement": "object pull never panics"},
+        {"name": "C04_example", "status": "proved", "statement": "non-vacuity by vm_compute"},
+    ],
+    "builds": ["stable"],
+    "rule": "every length 0..=160 (thorough 400) x {zeros, 0xff, PRNG, valid-prefix, valid-with-mutation} through secretbox / box / sealed opens (classic + from_bytes), stream pull (classic + object), crypto_sign_open, SignedMessage::from_bytes+verify, verify_detached / final_verify with 64-byte and public keys of every class, "
+            "object-API MAC verification with a Vec authenticator of every length 0..=80; authentic stream messages with every tag byte 0..=255 pushed by libsodium; grammar-built (40 one-defect variants) and soup password-hash strings through str_verify / needs_rehash / from_string / verify; "
+            "a counting global allocator records the largest single request (bound 8 KiB + 8*len). Debug profile with overflow checks. non-trivial = length >= the fixed overhead",
+    "modelled": _SYM_MODELLED + ["signature, MAC-object and password-string entry points are not in the model: search only"],
+    "assumptions": ["panics inside external crates are visible only to the harness", "password-hash strings with bounded cost parameters (m <= 64 KiB, t <= 3) as the property states"],
+    "partial": "box / stream entry points proved over the model; the rest by exhaustive-length search on the implementation",
+}
